@@ -587,14 +587,20 @@ class _Interp:
             subj = self.deref(self.ev(s.subject))
             for case in s.cases:
                 pat = case.pattern
+                # Python semantics: the first case whose pattern matches AND whose guard (if any) is true is taken
+                def guard_ok():
+                    return case.guard is None or self.ctx.decide(self.truth(self.ev(case.guard)))
+
                 if isinstance(pat, ast.MatchAs) and pat.pattern is None:
-                    self.block(case.body)
-                    return
+                    if guard_ok():
+                        self.block(case.body)
+                        return
+                    continue
                 if isinstance(pat, ast.MatchValue):
                     pv = self.deref(self.ev(pat.value))
                     c = SP._bits(P, subj.v, subj.ty) == (pv.v if pv.ty.kind in ("str", "int") else SP._bits(P, pv.v, pv.ty)) \
                         if pv.ty.kind == "str" else (subj.v == pv.v)
-                    if self.ctx.decide(c):
+                    if self.ctx.decide(c) and guard_ok():
                         self.block(case.body)
                         return
                     continue
